@@ -57,7 +57,7 @@ def od():
 
 
 def bounds(tier):
-    return {"closures": "sync, pdo, heartbeat, guarding x 2 task flavours", "combined_depth": 3 if tier == "quick" else 4}
+    return {"closures": "sync, pdo, heartbeat, guarding x 2 task flavours", "combined_depth": 3 if tier == "quick" else "closure"}
 
 
 class Base:
@@ -343,7 +343,7 @@ def cases(tier, seed):
         for mod in (True, False):
             out.append({"producer": name, "mod": mod, "depth": None})
     for mod in (True, False):
-        out.append({"producer": "combined", "mod": mod, "depth": 3 if tier == "quick" else 4})
+        out.append({"producer": "combined", "mod": mod, "depth": 3 if tier == "quick" else None})
     for mod in (True, False):
         for ss in (True, False):
             out.append({"part": "reconnect", "mod": mod, "shutdown_stops": ss})
